@@ -215,7 +215,11 @@ impl SimServer {
         &self,
         mut configuration: WorkerConfiguration,
         now: Instant,
-    ) -> (WorkerId, WorkerRegistrationResponse, UnboundedReceiver<Bytes>) {
+    ) -> (
+        WorkerId,
+        WorkerRegistrationResponse,
+        UnboundedReceiver<Bytes>,
+    ) {
         let worker_id = self.core_ref.get_mut().new_worker_id();
         sync_worker_configuration(&mut configuration, *self.core_ref.get().idle_timeout());
         let (queue_sender, queue_receiver) = tokio::sync::mpsc::unbounded_channel::<Bytes>();
@@ -304,7 +308,10 @@ impl SimServer {
     }
 
     pub fn has_worker(&self, worker_id: WorkerId) -> bool {
-        self.core_ref.get().get_worker_map().contains_key(&worker_id)
+        self.core_ref
+            .get()
+            .get_worker_map()
+            .contains_key(&worker_id)
     }
 
     /// Mirrors the idle-timeout branch of `periodic_check` (without the time comparison).
